@@ -78,6 +78,9 @@ func ParseSequenceFile(data []byte) (*SequenceData, error) {
 	if hoff < 23 || hoff > len(tupleData) {
 		hoff = 24 // Default aligned offset
 	}
+	if hoff > len(tupleData) {
+		return nil, fmt.Errorf("tuple too small")
+	}
 
 	// Sequence tuple data starts after header
 	seqData := tupleData[hoff:]
